@@ -162,10 +162,12 @@ KeyAdvIdx == { <<n, k1, k2>> : n \in {"k", "a-b", "type"}, k1 \in AnyKinds, k2 \
 KeyAdversarial == LET I == SetToSeq(KeyAdvIdx) IN
     [j \in DOMAIN I |-> Double("key-adv", "any", << E(I[j][1], AnyNode(I[j][2])), E("z", S(<<"z">>)) >>, << E(I[j][1], AnyNode(I[j][3])), E("z", S(<<"z">>)) >>)]
 \* plural members of every kind of value
-PluralAdvIdx == { <<b, k1, k2>> : b \in {"k", "k_ordinal"}, k1 \in AnyKinds, k2 \in AnyKinds }
+\* (first form `one`: used by the locales of the project; `few` / `zero`: forms their plural rules never select, so the loader also
+\* walks its "unused form" diagnostics)
+PluralAdvIdx == { <<b, k1, k2, f>> : b \in {"k", "k_ordinal"}, k1 \in AnyKinds, k2 \in AnyKinds, f \in {"_one", "_few", "_zero"} }
 PluralAdversarial == LET I == SetToSeq(PluralAdvIdx) IN
-    [j \in DOMAIN I |-> Double("plural-adv", "any", << E(I[j][1] \o "_one", AnyNode(I[j][2])), E(I[j][1] \o "_other", AnyNode(I[j][3])), E("z", S(<<"z">>)) >>,
-                                << E(I[j][1] \o "_one", AnyNode(I[j][3])), E(I[j][1] \o "_other", AnyNode(I[j][2])), E("z", S(<<"z">>)) >>)]
+    [j \in DOMAIN I |-> Double("plural-adv", "any", << E(I[j][1] \o I[j][4], AnyNode(I[j][2])), E(I[j][1] \o "_other", AnyNode(I[j][3])), E("z", S(<<"z">>)) >>,
+                                << E(I[j][1] \o I[j][4], AnyNode(I[j][3])), E(I[j][1] \o "_other", AnyNode(I[j][2])), E("z", S(<<"z">>)) >>)]
 
 \* names inside values: variables and components whose names are dashed, keywords, digits, empty; at top level, inside a
 \* dashed subkey group, inside a range branch, inside a plural form, and as the argument name of a foreign key
